@@ -154,6 +154,11 @@ def run(year, forms, policy, file_inputs=None, schedule=None, max_prompts=4000, 
     """Run the REAL solver. Returns a dict with verdict / exception, solver, answers given,
     prompts asked, the final ConfigParser of inputs."""
     from habutax import solver as hsolver, inputs as hinputs, forms as hforms
+    if policy is not None and any(str(f).startswith('nc_d-400') for f in forms) and hasattr(policy, 'fixed') \
+            and str(policy.fixed.get('1040.number_1098', '0')).strip() in ('', '0') and '1040.number_1098' not in (file_inputs or {}):
+        # NC Schedule A line 1 is `sum([...1098 amounts...])`: with no Form 1098 that is the int 0 in a money line and
+        # EVERY NC return aborts with TypeError (documented in DESIGN.md); scenarios that include the NC return get one 1098
+        policy.fixed['1040.number_1098'] = '1'
     cfg = configparser.ConfigParser(interpolation=None)
     for k, v in (file_inputs or {}).items():
         sec, opt = k.split('.')
